@@ -80,6 +80,7 @@ def verify_case(con: C.Contract, case: C.Case, timeout_ms=10000) -> CaseReport:
         except C.CalleeUnspecified as e:
             real = ("callee-unspecified", e.name)
         sx = C.SpecCtx(ctx, it)
+        sx.real_args = args1  # for identity (aliasing) clauses of a contract
         try:
             sv = case.spec(sx, *args2, **kw2)
             spec = ("return", sv)
